@@ -29,10 +29,17 @@ RULE = ('expression/condition correspondence: seeded random integer expressions 
         '(boundary + random), CPython is the oracle, vectors on which CPython overflows 64 bits, divides by zero or '
         'exceeds the step budget are filtered out; distinct non-trivial = (function, argument vector) pairs that CPython '
         'accepts, whose function contains at least one loop or branch and whose result is not 0')
-EXPLANATION = ('PARTIAL. Theorems (unbounded in values) cover only: lowering of integer expressions over + - * // '
+EXPLANATION = ('PARTIAL. Statement level (added): c36_stmt_exact / c36_body_exact prove, by rule induction over a relational '
+               'big-step semantics of the subset (Spec/PyStmtSpec.v: assignment, augmented assignment, if/elif/else, while, '
+               'for-range, break, continue, return, pass), that the code gen_statement is modelled to emit (Model/Py2IrStmt.v) '
+               'returns CPython\'s value; the emitted CFG is represented unfolded along forward edges (Model/StmtCode.v) and '
+               'executed with IRSem arithmetic but NOT with IRSem.run_function on numbered blocks/byte memory; the model CFG is '
+               'compared structurally with the decompiled python_to_ir output on generated functions every run. '
+               'Expression level: theorems (unbounded in values) cover: lowering of integer expressions over + - * // '
                '(as the current table/sequence lowers them), comparisons and short-circuit and/or, and the block skeleton '
-               'of for-range loops with abstract bodies. NOT proved: statements, variables/stack slots, while loops, '
-               'calls, floats, strings, the IR builder, delete_unreachable; those are differential-execution validated only.')
+               'of for-range loops with abstract bodies. NOT proved: block numbering, Alloc/Load/Store through byte memory, phi '
+               'lookup by predecessor, delete_unreachable, the IR builder, calls, floats, strings; those are validated by the '
+               'structural CFG comparison and by differential execution only.')
 TRUSTED = ['export of binop_map / gen_compare.op_map / the `a // b` instruction sequence (tools/props/c36.py)',
            'hand transcription Model/Py2Ir.v (cross-checked against python_to_ir + irsem_py on every run)',
            'coq/Spec/IRSem.v eval_binop/eval_cond as the meaning of IR (shared hub), tools/irsem_py.py as its executable twin',
@@ -471,6 +478,124 @@ def expr_cases(ctx, n_expr, n_cond, n_env):
     return cases, meta
 
 
+# ------------------------------------------------------------------ statements: model CFG vs decompiled python_to_ir output (tie H)
+SVARS = 4
+
+
+def sgen_block(rng, depth, in_loop, n=None):
+    return [sgen_stmt(rng, depth, in_loop) for _ in range(n or rng.choice([1, 1, 2]))]
+
+
+def sgen_stmt(rng, depth, in_loop):
+    ops = ['Add', 'Sub', 'Mult']
+    r = rng.random()
+    if depth > 0 and r < 0.2:
+        return ('if', gen_cond(rng, rng.choice([0, 1, 2]), ops), sgen_block(rng, depth - 1, in_loop),
+                sgen_block(rng, depth - 1, in_loop) if rng.random() < 0.6 else [])
+    if depth > 0 and r < 0.32:
+        return ('while', gen_cond(rng, rng.choice([0, 1]), ops), sgen_block(rng, depth - 1, True))
+    if depth > 0 and r < 0.47:
+        lo = None if rng.random() < 0.5 else gen_expr(rng, 1, ops)
+        return ('for', 3, lo, gen_expr(rng, 1, ops), sgen_block(rng, depth - 1, True))
+    if in_loop and r < 0.57:
+        return ('if', gen_cond(rng, 0, ops), [(rng.choice(['break', 'continue']),)], [])
+    if r < 0.62:
+        return ('if', gen_cond(rng, 1, ops), [('ret', gen_expr(rng, 1, ops))], [])
+    if r < 0.66:
+        return ('pass',)
+    if r < 0.8:
+        return ('aug', rng.randrange(SVARS), rng.choice(ops), gen_expr(rng, 1, ops))
+    return ('assign', rng.randrange(SVARS), gen_expr(rng, 2, ops))
+
+
+def s_src(s, ind):
+    p = ' ' * ind
+    k = s[0]
+    if k in ('pass', 'break', 'continue'):
+        return [p + k]
+    if k == 'assign':
+        return [p + 'x%d = %s' % (s[1], e_src(s[2]))]
+    if k == 'aug':
+        return [p + 'x%d %s= %s' % (s[1], PBIN_SYM[s[2]], e_src(s[3]))]
+    if k == 'ret':
+        return [p + 'return %s' % e_src(s[1])]
+    if k == 'if':
+        out = [p + 'if %s:' % c_src(s[1])] + b_src(s[2], ind + 4)
+        if s[3]:
+            out += [p + 'else:'] + b_src(s[3], ind + 4)
+        return out
+    if k == 'while':
+        return [p + 'while %s:' % c_src(s[1])] + b_src(s[2], ind + 4)
+    if k == 'for':
+        rg = 'range(%s)' % e_src(s[3]) if s[2] is None else 'range(%s, %s)' % (e_src(s[2]), e_src(s[3]))
+        return [p + 'for x%d in %s:' % (s[1], rg)] + b_src(s[4], ind + 4)
+    raise AssertionError(k)
+
+
+def b_src(b, ind):
+    return [l for s in b for l in s_src(s, ind)] or [' ' * ind + 'pass']
+
+
+def s_coq(s):
+    k = s[0]
+    if k == 'pass':
+        return 'PSPass'
+    if k == 'break':
+        return 'PSBreak'
+    if k == 'continue':
+        return 'PSContinue'
+    if k == 'assign':
+        return '(PSAssign %d %s)' % (s[1], e_coq(s[2]))
+    if k == 'aug':
+        return '(PSAug %d P%s %s)' % (s[1], s[2], e_coq(s[3]))
+    if k == 'ret':
+        return '(PSRet %s)' % e_coq(s[1])
+    if k == 'if':
+        return '(PSIf %s %s %s)' % (c_coq(s[1]), b_coq(s[2]), b_coq(s[3]))
+    if k == 'while':
+        return '(PSWhile %s %s)' % (c_coq(s[1]), b_coq(s[2]))
+    if k == 'for':
+        return '(PSFor %d %s %s %s)' % (s[1], e_coq(s[2]) if s[2] is not None else '(PConst 0)', e_coq(s[3]), b_coq(s[4]))
+    raise AssertionError(k)
+
+
+def b_coq(b):
+    if not b:
+        return 'PSPass'
+    if len(b) == 1:
+        return s_coq(b[0])
+    return '(PSSeq %s %s)' % (s_coq(b[0]), b_coq(b[1:]))
+
+
+def stmt_cases(ctx, n):
+    """(Coq term, decompiled real CFG) pairs"""
+    sys.path.insert(0, os.path.dirname(os.path.abspath(__file__)))
+    import stmt_decomp
+    cases, meta = [], []
+    var_index = {'x%d' % i: i for i in range(SVARS)}
+    tries = 0
+    while len(cases) < n and tries < 4 * n:
+        tries += 1
+        body = sgen_block(ctx.rng, 2, False, ctx.rng.choice([1, 2, 3])) + [('ret', gen_expr(ctx.rng, 1, ['Add', 'Sub', 'Mult']))]
+        src = 'def f(%s) -> int:\n%s\n' % (', '.join('x%d: int' % i for i in range(SVARS)), '\n'.join(b_src(body, 4)))
+        m, err = compile_quiet(src)
+        if err == 'diag':
+            val = Diag
+        elif err:
+            val = Internal
+        else:
+            f = [x for x in m.functions if x.name == 'f'][0]
+            try:
+                val = stmt_decomp.decompile(f, var_index, False, lambda d: 2 * d + 1)
+            except stmt_decomp.Unexpected as ex:
+                if str(ex) == 'too large':
+                    continue
+                val = 'decompile: %s' % ex
+        cases.append(('pcompile_val lowcfg_cur %s' % b_coq(body), val))
+        meta.append(src)
+    return cases, meta
+
+
 # ------------------------------------------------------------------ differential search on generated functions
 LOCALS = ['x', 'y', 'z', 's']
 ARGS = ['a', 'b', 'c', 'n']        # n is kept small (loop bound)
@@ -686,7 +811,7 @@ def run(ctx):
         t = regen(ctx)
     except TieBroken:
         t = None
-    ok, _ = ctx.build(['Proofs/C36_current.vo', 'Model/Py2Ir.vo', 'Gen/Tab_py2ir.vo'])
+    ok, _ = ctx.build(['Proofs/C36_current.vo', 'Proofs/C36_stmt.vo', 'Model/Py2Ir.vo', 'Model/Py2IrStmt.vo', 'Gen/Tab_py2ir.vo'])
     if ok:
         ctx.check_props('Props/C36.v')
     model_ok = ok or ctx.build(['Gen/Tab_py2ir.vo'])[0]
@@ -710,6 +835,21 @@ def run(ctx):
             ctx.failed_stages.append(('correspondence', 'Model.Py2Ir disagrees with python_to_ir+irsem_py on %d cases, '
                                       'first: %r' % (len(bad), (meta[bad[0]] if bad[0] < len(meta) else
                                                                 sk[bad[0] - len(meta)]),)))
+
+    # ---- statements: model CFG (Model/Py2IrStmt.v) vs decompiled python_to_ir output
+    if t is not None and model_ok and t['for']['variant'] == 'VIncBlock' and t['for']['loopvar'] == 'LVSlot':
+        scases, smeta = stmt_cases(ctx, 120 if thorough else 45)
+        sbad = ctx.run_cases('py2irstmt', ['Spec.IRSyntax', 'Spec.IRSem', 'Spec.PyExprSpec', 'Spec.PyStmtSpec', 'Model.Py2Ir',
+                                           'Model.StmtCode', 'Model.Py2IrStmt', 'Gen.Tab_py2ir'], scases)
+        ctx.cov['stages']['stmt_cfg_cases'] = {'cases': len(scases), 'disagree': len(sbad or [])}
+        ctx.cov['distinct_nontrivial'] += len(scases)
+        if smeta:
+            ctx.note_sample({'stmt_cfg_source': smeta[0]})
+        if sbad:
+            for i in sbad[:3]:
+                ctx.log('statement model / python_to_ir CFG disagree on:\n' + smeta[i] + repr(scases[i][1])[:300])
+            ctx.failed_stages.append(('correspondence', 'Model.Py2IrStmt CFG differs from python_to_ir on %d functions, first:\n%s'
+                                      % (len(sbad), smeta[sbad[0]])))
 
     # ---- witnesses of the recorded defects
     wres = {}
@@ -768,9 +908,16 @@ MANIFEST = {
             'body that falls through, continues or breaks per iteration, and leaves CPython\'s value in the loop variable '
             '(c36_for_range). For the source as found the same statements are refuted with witnesses (-7 // 2 = -3; '
             'continue / nested control flow in a for body leaves the phi without an input; loop variable = n after the '
-            'loop) and proved on the complement (c36_expr_exact_outside, c36_for_range_orig_straight). Statements '
-            '(assignment, augmented assignment, if/while/for bodies, break/continue placement, early return, calls, stack '
-            'slots) have NO theorem: they are differential-execution validated only (generated annotated functions -> '
+            'loop) and proved on the complement (c36_expr_exact_outside, c36_for_range_orig_straight). (4) STATEMENTS: for every '
+            'statement tree over assignment, augmented assignment, if/elif/else, while, for-range, break, continue, return, pass and '
+            'every environment, if CPython\'s big-step execution (relational spec PyStmtSpec: terminating, exception-free, within '
+            '64 bits) ends in return v, the code the gen_statement model emits returns v (c36_stmt_exact, c36_body_exact; rule '
+            'induction, continuation-passing simulation, the expression/condition theorems as leaves). LIMIT of (4): the emitted '
+            'CFG is modelled unfolded along its forward edges (join blocks duplicated, loop heads/back edges explicit, the for-loop '
+            'phi and bound as registers, locals as slots) and executed with IRSem arithmetic, not with IRSem.run_function over '
+            'numbered blocks and byte memory; that representation is tied to the real output by decompiling python_to_ir\'s CFG '
+            'into the same tree form and comparing it with the model on generated functions every run (45 per quick run). Calls, '
+            'block numbering, memory layout and delete_unreachable remain differential-execution validated only (generated annotated functions -> '
             'python_to_ir -> reference IR interpreter vs CPython on boundary and random arguments, 150 functions x 8 vectors '
             'per quick run). Floats and strings are not covered at all.',
     'note': 'theorems are about the hand model coq/Model/Py2Ir.v + tables regenerated from the source; model and '
